@@ -30,8 +30,38 @@ MLTokens == { "\"Hello,\nworld\"", "\"a\n" \o Rep(" ", 40) \o "b\"", "\"\"\"doc\
 OnMultiLine == UNION { { "def g: Int := " \o tk, "print(1 + " \o tk \o ")", "def f(x: Int) => x\nf(" \o tk \o ")", "def x := " \o tk \o " )", "def x := " \o tk \o " +",
                          tk \o ".undefined_method()", "def x: Str := " \o tk \o "\ndef y: Int := x", "if " \o tk \o " then print(1)", Rep(" ", 30) \o "def g: Int := " \o tk,
                          "class A\n    def m(self) -> Int => " \o tk, "def f() -> Int => " \o tk \o "\nf()", "raise " \o tk, "for i in " \o tk \o " do print(i + 1)" } : tk \in MLTokens }
+\* characters that need care inside a string literal of the TARGET language, alone and between text, in a plain and in an interpolated string
+StringContents == {"\r", "\n", "\r\n", "\t", "\f", "\\n", "\\\\", "\\\"", "'", "{{", "}}", "%", "\\x41", "\\u0041", "\\N{DASH}", "ü", "\\", "\\ "}
+InStrings == UNION { { "def x := \"" \o c \o "\"\nprint(x)", "def x := \"a" \o c \o "b\"\nprint(x)", "def n := 1\ndef x := \"{n}" \o c \o "b\"\nprint(x)",
+                       "def n := 1\ndef x := \"a" \o c \o "{n}\"\nprint(x)", "print(\"a" \o c \o "\")", "def f() -> Str => \"" \o c \o "\"\nprint(f())" } : c \in StringContents }
+\* user classes NAMED like the built-in classes, inheriting from built-in classes (the user's class replaces the built-in one)
+BuiltinNames == {"Int", "Float", "Complex", "Str", "Bool", "List", "Set", "Dict", "Tuple", "Collection", "Exception", "Range", "Slice", "None", "Any", "Callable", "Generic", "Union", "Optional"}
+Shadowing == { "class " \o a \o ": " \o b \o "\ndef x := 1 + 2\ndef y := [1.5, 2]\ndef z := \"s\"\nprint(x)\n" : a \in BuiltinNames, b \in BuiltinNames \ {"None", "Any", "Union", "Optional", "Callable", "Generic"} }
+             \cup { "class " \o a \o "[T]: " \o b \o "[T]\ndef y := [1]\nprint(y)\n" : a \in {"Collection", "List", "Set", "Tuple"}, b \in {"Collection", "List", "Set", "Tuple"} }
+\* every VALUE POSITION of the language x every form of expression that the generator may have to emit as a statement (conditionals in
+\* their inline forms, nested in each other, negated, called; builders, indexing, the default operator): whatever is accepted must compile
+ValueForms == { "if c then 1 else 2", "if c then 1 else if c then 2 else 3", "if c then (if c then 1 else 2) else 3", "(if c then 1 else 2)", "-(if c then 1 else 2)",
+                "(if c then 1 else 2) + (if c then 3 else 4)", "if (if c then False else True) then 1 else 2", "[x | x in [1, 2]][0]", "{1 => 2}[1]", "(1, 2)[0]",
+                "n ? 2", "(\\y: Int => y)(1)", "if c then n ? 1 else 2", "twice(if c then 1 else 2)", "if c then twice(1) else twice(if c then 2 else 3)" }
+Prelude == "def c := True\ndef n: Int? := None\ndef twice(x: Int) -> Int => x * 2\n"
+InPosition(e) == { Prelude \o "def v := " \o e \o "\nprint(v)", Prelude \o "def v: Int := " \o e \o "\nprint(v)",
+                   Prelude \o "def f() -> Int =>\n    return " \o e \o "\nprint(f())", Prelude \o "def f() -> Int =>\n    " \o e \o "\nprint(f())", Prelude \o "def f() -> Int => " \o e \o "\nprint(f())",
+                   Prelude \o "print(twice(" \o e \o "))", Prelude \o "def d := {1 => " \o e \o "}\nprint(d[1])", Prelude \o "def l := [" \o e \o ", 2]\nprint(l)",
+                   Prelude \o "match " \o e \o "\n    1 => print(\"a\")\n    _ => print(\"b\")", Prelude \o "if (" \o e \o ") > 0 then print(\"p\")",
+                   Prelude \o "def v: Int := (" \o e \o ") + 1\nprint(v)", Prelude \o "print(\"v={" \o e \o "}\")", Prelude \o "def g(x: Int := " \o e \o ") -> Int => x\nprint(g())",
+                   Prelude \o "for i in 0 .. (" \o e \o ") do print(i)", Prelude \o "def t := (" \o e \o ", 1)\nprint(t)", Prelude \o "def s: Set[Int] := {" \o e \o "}\nprint(s)",
+                   Prelude \o "class K(def a: Int := " \o e \o ")\nprint(K().a)", Prelude \o "def w := \\x: Int => " \o e \o "\nprint(1)", Prelude \o "def v: Int := 0\nv := " \o e \o "\nprint(v)",
+                   Prelude \o "def v: Int := 0\nv += " \o e \o "\nprint(v)", Prelude \o "while (" \o e \o ") > 5 do print(1)", Prelude \o "raise Exception(\"{" \o e \o "}\")" }
+BlockForms == { Prelude \o "def v := if c then\n    1\nelse\n    2\nprint(v)", Prelude \o "def v := if c then 1 else if c then\n    2\nelse\n    3\nprint(v)",
+                Prelude \o "def v := if c then\n    if c then\n        1\n    else\n        2\nelse\n    3\nprint(v)", Prelude \o "def v := match 1\n    1 => 10\n    _ => 20\nprint(v)",
+                Prelude \o "def v := match 1\n    1 => if c then 10 else 11\n    _ =>\n        print(\"x\")\n        20\nprint(v)",
+                Prelude \o "def f() -> Int =>\n    return if c then\n        1\n    else\n        2\nprint(f())", Prelude \o "def f() -> Int =>\n    return match 1\n        1 => 10\n        _ => 20\nprint(f())",
+                Prelude \o "def f() -> Int =>\n    if c then\n        1\n    else\n        match 1\n            1 => 10\n            _ => 20\nprint(f())",
+                Prelude \o "def f() -> Int =>\n    return if c then 1 else if c then\n        2\n    else\n        3\nprint(f())",
+                Prelude \o "def (a, b) := if c then\n    (1, 2)\nelse\n    (3, 4)\nprint(a + b)", Prelude \o "def (a, b) := match 1\n    1 => (1, 2)\n    _ => (3, 4)\nprint(a + b)" }
+ValuePositions == BlockForms \cup UNION { InPosition(e) : e \in ValueForms }
 Shapes ==
-   OnMultiLine \cup
+   OnMultiLine \cup InStrings \cup Shadowing \cup ValuePositions \cup
    { Rep("(", n) \o "1" \o Rep(")", n) : n \in {1, 2, 4, 8, 12} }
    \cup { "def x := " \o Rep("[", n) \o "1" \o Rep("]", n) : n \in {1, 2, 4, 8, 12} }
    \cup { "def x := " \o Rep("(", n) \o "1 + " : n \in {1, 3} } \cup { Rep(")", n) : n \in {1, 3} }
